@@ -27,6 +27,8 @@ pub enum Q {
     Cmp(Option<u8>, u8, u8, i64),
     /// lo <= n.k < hi
     Between(u8, i64, i64),
+    /// two-sided range in one of four spellings: bit 0 = upper bound written first, bit 1 = lower bound exclusive / upper inclusive
+    BetweenForm(u8, i64, i64, u8),
     /// n.k = c AND n.m = d
     And(u8, i64, i64),
     /// n.k = c OR n.m = d
@@ -85,6 +87,7 @@ fn qname(q: &Q) -> &'static str {
         Q::Eq(..) => "equality",
         Q::Cmp(..) => "comparison",
         Q::Between(..) => "range",
+        Q::BetweenForm(..) => "range-spelling",
         Q::And(..) => "conjunction",
         Q::Or(..) => "disjunction",
         Q::EqFloat(..) => "int-vs-float-constant",
@@ -106,6 +109,15 @@ fn text(q: &Q, spaced: bool) -> String {
         Q::Eq(l, k, c) => format!("MATCH {} WHERE n.{} = {c} RETURN id(n)", pat(l), KEYS[*k as usize % 2]),
         Q::Cmp(l, k, op, c) => format!("MATCH {} WHERE n.{} {} {c} RETURN id(n)", pat(l), KEYS[*k as usize % 2], [">", ">=", "<", "<="][*op as usize % 4]),
         Q::Between(k, lo, hi) => format!("MATCH (n) WHERE n.{0} >= {lo} AND n.{0} < {hi} RETURN id(n)", KEYS[*k as usize % 2]),
+        Q::BetweenForm(k, lo, hi, form) => {
+            let key = KEYS[*k as usize % 2];
+            let (lop, hop) = if form & 2 == 0 { (">=", "<") } else { (">", "<=") };
+            if form & 1 == 0 {
+                format!("MATCH (n) WHERE n.{key} {lop} {lo} AND n.{key} {hop} {hi} RETURN id(n)")
+            } else {
+                format!("MATCH (n) WHERE n.{key} {hop} {hi} AND n.{key} {lop} {lo} RETURN id(n)")
+            }
+        }
         Q::And(_, c, d) => format!("MATCH (n) WHERE n.k = {c} AND n.m = {d} RETURN id(n)"),
         Q::Or(_, c, d) => format!("MATCH (n) WHERE n.k = {c} OR n.m = {d} RETURN id(n)"),
         Q::EqFloat(k, c) => format!("MATCH (n) WHERE n.{} = {c}.0 RETURN id(n)", KEYS[*k as usize % 2]),
@@ -168,6 +180,7 @@ impl Model {
                     })
             }),
             Q::Between(k, lo, hi) => ids(&|n| key(n, *k).is_some_and(|v| v >= *lo && v < *hi)),
+            Q::BetweenForm(k, lo, hi, form) => ids(&|n| key(n, *k).is_some_and(|v| if form & 2 == 0 { v >= *lo && v < *hi } else { v > *lo && v <= *hi })),
             Q::And(_, c, d) => ids(&|n| n.k == Some(*c) && n.m == Some(*d)),
             Q::StrEq(s) => ids(&|n| n.s == Some(*s % 4)),
             Q::Count(l) => vec![format!("[Int64({})]", self.nodes.values().filter(|n| lab(l, n)).count())],
@@ -420,7 +433,13 @@ fn gen_q(rng: &mut Prng) -> Q {
     match rng.below(14) {
         0 | 1 => Q::Eq(l, rng.below(2) as u8, c),
         2 | 3 => Q::Cmp(l, rng.below(2) as u8, rng.below(4) as u8, c),
-        4 => Q::Between(rng.below(2) as u8, c, c + rng.below(4) as i64),
+        4 => {
+            if rng.chance(1, 2) {
+                Q::Between(rng.below(2) as u8, c, c + rng.below(4) as i64)
+            } else {
+                Q::BetweenForm(rng.below(2) as u8, c, c + rng.below(4) as i64, rng.below(4) as u8)
+            }
+        }
         5 => Q::And(0, c, rng.below(5) as i64),
         6 => Q::Or(0, c, rng.below(5) as i64),
         7 => Q::EqFloat(rng.below(2) as u8, c),
